@@ -416,7 +416,10 @@ def _run_batch(prop, tier, base_seed, engine, findings, workdir, t_start):
         sys.stderr.write('HARNESS ERROR (%d):\n' % len(harness_errors))
         for err in harness_errors[:5]:
             sys.stderr.write(err + '\n')
-        return 2
+        # a replayable violation found by other runs stands on its own;
+        # without one a harness error is never success
+        if exit_code != 1:
+            return 2
     print('%s %s: %d runs, %d steps, %.0f simulated s, %d distinct states, '
           '%.1fs wall, exit %d' % (prop, tier, agg['runs'], agg['steps'],
                                    agg['sim_s'], len(all_fps), wall,
